@@ -8,6 +8,10 @@ PROPS = {
                        explanation="four theorems (justified, silenced key, release never presses, trigger consumed) from Inv; 'in effect' is the specification state's active list; extracted checkers K_C02_* run on the real outputs"),
     "C03": mapper_prop(["EVENTS"], ["C03"],
                        explanation="C03_last_listed_satisfied_mapping_fires: for every non-absorbing accepted layout and every history the fired mapping is the declarative last-listed satisfied one over the PHYSICALLY held keys (inp = phys proved), with the stated effects; extracted checkers K_C03_fire / K_C03_pass run on the real outputs"),
+    "C05": mapper_prop(["EVENTS"], ["C05"],
+                       explanation="six theorems for every accepted layout and every history: events of a foreign key (pressed only by its own acted press, released only by its own release, release-all or - non-modifier - a no-repeat firing; pressed exactly once as the last event; up after its release), empty layout = echo of the input, release scope (only the key itself and outputs of mappings triggered by it, never an output of a mapping remaining in effect), in-effect outputs stay (non-absorbing layouts); extracted checkers K_C05_foreign/empty/scope/stay run on the real outputs"),
+    "C06": mapper_prop(["FULL"], ["C06"],
+                       explanation="C06_fresh_after_rest / C06_fresh_after_release_all / C06_no_memory: a bisimulation (MapperRefire.v: the absorbed-key list matters only through absorbed keys still held on the input, the absorbing trigger only while there is one, the repeat trigger never) proves that after every history ending at rest, and after every release-all, the responses (events and repeat instruction) to EVERY continuation equal a fresh mapper's; on the real code every rest node of the explored transition graph is compared with the initial node by a product search over all continuations (clause C06), and the FULL observation ties the model to the code"),
     "C07": mapper_prop(["EVENTS"], ["C07"],
                        explanation="C07_no_repeatable_key_held from Inv + fire_facts for every accepted layout and history; extracted checkers K_C07_held / K_C07_pressed run on the real outputs"),
     "C09": mapper_prop(["REPEAT"], ["C09"],
